@@ -187,7 +187,8 @@ claim(
     'Parser member has a reader; parsers never mutate the docstring or its parent; no pattern nests ambiguous unbounded repeats. '
     'Bounded-exhaustive totality: about 9000 parses per run (all single lines and all pairs of lines after a summary; all sequences up '
     'to 3 lines in the thorough tier) x option sets that switch reader paths x parent kinds return a list of sections without raising, '
-    'without modifying the docstring and within a step budget 40x above the observed maximum. Not decided: resource exhaustion on huge '
+    'without modifying the docstring and within a step budget 40x above the observed maximum; parse_docstring_annotation itself evaluated on '
+    '29 annotation texts (compilable but not convertible, with every kind of brace) returns without raising. Not decided: resource exhaustion on huge '
     'inputs.',
     TB + '; the alphabet of line shapes is listed in sa/rules/C12.py',
 )
